@@ -17,6 +17,13 @@ OBLIGATIONS = [
     "NanoVerif.C15.ok_no_conflict",
     "NanoVerif.C15.palette_length",
     "NanoVerif.C15.palette_mem",
+    "NanoVerif.C15.uniqSortAll_total",
+    "NanoVerif.C15.uniqSortCpal_total",
+    "NanoVerif.C15.uniqSortAll_indexed",
+    "NanoVerif.C15.uniqSortAll_free_slots",
+    "NanoVerif.C15.unindexed_ascending",
+    "NanoVerif.C15.uniqSortAll_order_independent",
+    "NanoVerif.C15.uniqSortCpal_set_independent",
 ]
 DESIGN_REF = "DESIGN.md §5 C15"
 LEVEL_TEXT = ("Lean theorems, by induction over the number of palette slots and for all deque contents, about the slot-filling loop of "
@@ -25,8 +32,10 @@ LEVEL_TEXT = ("Lean theorems, by induction over the number of palette slots and 
               "the palette is never empty. The model is tied to the code by exact differential runs (random sets, the property's small "
               "universe exhaustively in the thorough tier, several enumeration orders per set); the Lean checker `checkPalette` "
               "(all clauses of the property) runs on every real output; CPAL/COLR of real fonts are cross-checked in the pipeline suite.")
-LEVEL_NOTE = ("The passage from the colour set to the sorted deque (sorting, set semantics) is validated by correspondence, not proved; "
-              "order-independence is checked on real outputs by re-enumerating each set. Trusted: Lean kernel, harness.")
+LEVEL_NOTE = ("Top-level theorems now cover the passage from the colour set to the deque: for every duplicate-free collection without index conflict "
+              "the function returns (never IndexError/AssertionError), indexed colours sit at their index, free slots hold the unindexed colours "
+              "ascending then black, and the result depends only on the SET of colours (order and repeats irrelevant). Trusted: Lean kernel, harness; "
+              "Python set/dataclass equality is modelled as structural equality.")
 TECHNIQUE = "Lean 4 proof by induction over the loop + exact differential correspondence + exhaustive small universe"
 ASSUMPTIONS = ["Color equality is dataclass equality on (r,g,b,alpha,palette_index); alphas are taken from a dyadic grid so float equality is exact"]
 
